@@ -504,6 +504,28 @@ def rule_reads_are_stateless(ctx: Ctx) -> None:
     ctx.floor("8-no-shared-write.read-methods", n, 8)
 
 
+def rule_parent_stores_single_outputs(ctx: Ctx) -> None:
+    """The output of a function WITHOUT MapSpec is stored by the parent (in _process_task), never by the submitted task itself: with
+    no run folder the store holds in-memory DirectValue objects, and a task running in another process writes to its pickled copy
+    only - every later function then receives None for that value with a process pool, and the right value with threads."""
+    P = ctx.prog
+    dso = P.functions.get(f"{RUN}._dump_single_output")
+    if dso is None:
+        ctx.add("4-one-dump", f"{RUN}", "", None, "UNDECIDED: _dump_single_output not found (inlined?)", key="single-output-stored-by-parent")
+        return
+    submitted = {c.qualname for sites in ctx.cg.sites.values() for s_ in sites if s_.kind == "submit" for c in s_.callees}
+    # what the executor runs for a single call: the targets handed to submit (through the _submit helper as well)
+    sub_helper = P.functions.get(f"{RUN}._submit")
+    if sub_helper is not None:
+        for s_ in ctx.cg.call_sites_of(sub_helper.qualname):
+            if s_.node.args:
+                submitted |= {c.qualname for c in ctx.cg.resolve_callable(s_.caller, s_.node.args[0])}
+    in_task = sorted(q for q in submitted if dso.qualname in ctx.cg.reachable(q))
+    ctx.add("4-one-dump", dso, dso.node, not in_task, f"_dump_single_output is only reached from the parent side ({len(submitted)} submitted callables examined)" if not in_task else
+            f"{in_task[0].rsplit('.', 1)[-1]} - a callable that is submitted to the executor - reaches _dump_single_output: with in-memory storage and a process pool the value is stored in the worker's copy of the store, "
+            "downstream functions receive None (threads / sequential runs are unaffected)", key="single-output-stored-by-parent")
+
+
 PROCESS_STATE_EXEMPT = {
     "pipefunc._utils._cached_load": "only reached through load(..., cache=True); C04.1 fresh-load forbids that for every result/inputs load",
 }
@@ -550,7 +572,7 @@ def rule_no_process_memo(ctx: Ctx) -> None:
 
 
 def check(ctx: Ctx) -> None:
-    for rule in (rule_mirror, rule_barrier, rule_placement, rule_one_dump, rule_shared, rule_executor, rule_picklable_state, rule_no_shared_write, rule_reads_are_stateless, rule_no_process_memo):
+    for rule in (rule_mirror, rule_barrier, rule_placement, rule_one_dump, rule_shared, rule_executor, rule_picklable_state, rule_no_shared_write, rule_reads_are_stateless, rule_parent_stores_single_outputs, rule_no_process_memo):
         ctx.run(rule)
 
 
